@@ -3,7 +3,7 @@ from props import element_common as ec
 
 NAMESPACE = 'C09'
 LEAN_TARGETS = ['MxV.Props.C09']
-THEOREMS = ['attr_not_silently_dropped']
+THEOREMS = ['attr_not_silently_dropped', 'ladder_is_a_set', 'parseAttrs_frame', 'all_attrs_kept']
 TRUSTED_BASE = ['Lean 4.33.0 kernel', 'axioms: propext, Quot.sound, Classical.choice only (audited per theorem)',
                 'translator extract/*.py (attribute / validator / template tables regenerated every run)',
                 'correspondence harness: real XMLElement trees vs the Lean models Element, Values, Serialize, Parser, Mfull through mxdriver',
